@@ -430,3 +430,43 @@ def stateless_step_rule(ctx, repo, rule):
                         continue
                 ctx.check(not bad, rule, fi, bad[0][0] if bad else fi.node, "%s.%s keeps no state of its own between steps" % (ci.name, mname), "`%s` in %s.%s stores `self.%s`, which outlives the step: what the method does at a later step (or in a later run of the same object, or in a copy) depends on what happened before, not only on the previous step's values" % (norm(bad[0][0])[:70] if bad else "", ci.name, mname, bad[0][1] if bad else ""))
     ctx.require(n >= 10, "%s: fewer per-step methods (%d) than confirmed (10)" % (rule, n))
+
+
+def kind_dispatch_rule(ctx, repo, rule):
+    from ..core import boolx as B
+
+    ctx.rule(rule, "every compartment of the framework becomes the model object of its kind: in Population.build (for compartments of this population's type) residual junction iff its name is in the residual set; junction iff 'is junction' == 'y'; timed iff it has a duration group; source iff 'is source' == 'y'; sink iff 'is sink' == 'y'; ordinary otherwise - in that priority, each appended to self.comps exactly once")
+    fi = repo.func("model", "Population.build")
+    me = K.self_name(fi)
+    loops = [l for l in own_nodes(fi.node) if isinstance(l, ast.For) and "comps.index" in ast.unparse(l.iter) and isinstance(l.target, ast.Name)]
+    if len(loops) != 1:
+        ctx.fail(rule, fi, fi.node, "the loop over the framework's compartments was not found in Population.build", stmt_text="kind:loop")
+        return
+    lp = loops[0]
+    c = lp.target.id
+    at_ = lambda col: "comps.at[%s, '%s']" % (c, col)
+    mine = "%s == %s.type" % (at_("population type"), me)
+    R, J, T, S, Z = "%s in residual_junctions" % c, "%s == 'y'" % at_("is junction"), at_("duration group"), "%s == 'y'" % at_("is source"), "%s == 'y'" % at_("is sink")
+    want = {
+        "ResidualJunctionCompartment": "(%s) and (%s)" % (mine, R),
+        "JunctionCompartment": "(%s) and not (%s) and (%s)" % (mine, R, J),
+        "TimedCompartment": "(%s) and not (%s) and not (%s) and (%s)" % (mine, R, J, T),
+        "SourceCompartment": "(%s) and not (%s) and not (%s) and not (%s) and (%s)" % (mine, R, J, T, S),
+        "SinkCompartment": "(%s) and not (%s) and not (%s) and not (%s) and not (%s) and (%s)" % (mine, R, J, T, S, Z),
+        "Compartment": "(%s) and not (%s) and not (%s) and not (%s) and not (%s) and not (%s)" % (mine, R, J, T, S, Z),
+    }
+    seen = {}
+    for call in ast.walk(lp):
+        if isinstance(call, ast.Call) and ast.unparse(call.func) == "%s.comps.append" % me and call.args and isinstance(call.args[0], ast.Call) and isinstance(call.args[0].func, ast.Name):
+            seen.setdefault(call.args[0].func.id, []).append(call)
+    for kind, w in want.items():
+        cs = seen.get(kind, [])
+        ok = len(cs) == 1
+        cx = None
+        if ok:
+            got = B.cond(guards_of(enclosing_stmt(cs[0]), stop=lp, asserts=False))
+            ok = B.equivalent(got, B.parse_cond(w))
+            cx = B.counterexample(got, B.parse_cond(w))
+        ctx.check(ok, rule, fi, enclosing_stmt(cs[0]) if cs else lp, "%s created exactly for compartments of its kind" % kind, "%s is not created (once) exactly for the compartments the framework marks as that kind (differs e.g. when %s): a compartment of another kind steps with the wrong rules - a junction that keeps people, a source that is drawn down, a timed compartment that never releases" % (kind, cx), stmt_text="kind:%s" % kind)
+    extra = sorted(set(seen) - set(want))
+    ctx.check(not extra, rule, fi, lp, "no other compartment class is instantiated", "Population.build also creates %s" % extra, stmt_text="kind:extra")
